@@ -56,8 +56,14 @@ impl PolynomialTraits for IntermediatePolynomial {
                 variables: self.variables.clone(),
             });
         }
-        let evaluated =
-            eval_intermediate_polynomial(&self.terms, &[(self.variables[0].clone(), point)])?;
+        // A constant polynomial has no variable to bind
+        let bindings: Vec<(String, F)> = self
+            .variables
+            .first()
+            .map(|var| (var.clone(), point))
+            .into_iter()
+            .collect();
+        let evaluated = eval_intermediate_polynomial(&self.terms, &bindings)?;
         Ok(evaluated)
     }
 
@@ -77,8 +83,14 @@ impl PolynomialTraits for IntermediatePolynomial {
                 variables: self.variables.clone(),
             });
         }
+        // A constant polynomial has no variable; its derivative is the zero polynomial
+        let var = if self.variables.is_empty() {
+            "x"
+        } else {
+            &self.variables[0]
+        };
         Ok(Self {
-            terms: partial_derivative(&self.terms, &self.variables[0]).terms,
+            terms: partial_derivative(&self.terms, var).terms,
             variables: self.variables.clone(),
         })
     }
